@@ -145,6 +145,7 @@ def run_chunk(chunk):
     work = tempfile.mkdtemp(prefix='vf_c11_')
     items = []
     expect = {}
+    regen = []
 
     def viol(tag, why, desc, extra=None):
         sig = '%s %s' % (tag, why)
@@ -262,6 +263,7 @@ def run_chunk(chunk):
             for vn, srcs in sources.items():
                 if len(srcs) == 2 and srcs[0] != srcs[1]:
                     viol(tag, 'source-not-reproducible: %s' % vn, desc)
+            regen.append((tag, desc, sources['unnamed+source'][0]))
             # the emitted source, executed on its own
             for vn in ('unnamed+source', 'named+source'):
                 name = uid + ('_n' if vn.startswith('named') else '_u')
@@ -273,6 +275,15 @@ def run_chunk(chunk):
             if res.get('sample') is None:
                 res['sample'] = {'description': desc, 'variants': [v[0] for v in variants] + ['emitted source in python -I -S (x2)'],
                                  'inputs': len(inputs), 'entries': entries}
+        # the generated text must not depend on the interpreter's hash seed: regenerate the chunk's (unnamed)
+        # descriptions in a fresh interpreter with another PYTHONHASHSEED and compare the source text
+        if regen:
+            import hashlib
+            hs = impl.source_hashes_in_fresh_interpreter([d for _, d, _ in regen], 1 + (len(regen) % 3))
+            for (tag, d, src), h in zip(regen, hs):
+                res['ctr']['cases'] += 1
+                if h != hashlib.sha1(src.encode()).hexdigest():
+                    viol(tag, 'source-differs-in-a-fresh-interpreter-with-another-hash-seed', d, h)
         # one isolated interpreter for the whole chunk: standard library only
         if items:
             with open(os.path.join(work, 'work.json'), 'w') as f:
@@ -330,7 +341,7 @@ def run(tier, seed):
                 '{unnamed, grammar <name> header} x {include_source off, on} x compiled twice x {in-memory module, emitted _source_code '
                 'saved and imported by a separate `python -I -S` interpreter that has only the standard library and the work directory}; '
                 'x up to 150 well-formed inputs x 2 entry points; oracle: all variants give identical outcomes incl. the ParseError index, '
-                'repeated compilation gives identical source text, the isolated interpreter imports nothing outside the standard library; '
+                'repeated compilation gives identical source text (also in a fresh interpreter with another PYTHONHASHSEED), the isolated interpreter imports nothing outside the standard library; '
                 'non-trivial = descriptions with at least one failing input')
     chk.assumptions = ['the isolated interpreter is the same CPython binary started with -I -S']
     chk.explore(run_chunk, all_jobs(tier), chunk=1, job_deadline=900)
